@@ -29,7 +29,7 @@ PROPS = {
         "verus": [(U5, ["U5."])],
     },
     "C03": {
-        "witness": ("w_server", ['w_c03_responses']),
+        "witness": ("w_server", ['w_c03_responses', 'w_c07_binary', 'w_c14_counts']),
         "title": "Exactly one complete, protocol-conformant response per command",
         "kani": [],
         "verus": [(U2, ["U2.", "C13.", "C14.", "C09."]), (U3, ["U3.", "C13.", "C14.", "C09.", "C07.row", "C10.reply"]), (U5, ["U5.", "C02.run.log"])],
@@ -38,7 +38,9 @@ PROPS = {
         "witness": ("w_server", ['w_c04_big']),
         "title": "Outbound bytes are well-framed, including messages of 16 MiB and more",
         "kani": [("k6_deps", ["k6_byteorder_le"])],
-        "verus": [(U1, ["U1.write", "U1.end", "U1.flush", "U1.new"])],
+        # C07.row.packet: the buffered binary row reaches the connection completely (write_all, not one
+        # possibly short write) -- "a row larger than 16 MiB arrives intact"
+        "verus": [(U1, ["U1.write", "U1.end", "U1.flush", "U1.new"]), (U3, ["C07.row.packet"])],
     },
     "C05": {
         "witness": ("w_server", ['w_c05_seq']),
